@@ -291,6 +291,11 @@ def _exclusive_alternates(
     """
     from hypergraph.graph._conflict import _expand_mutex_groups, _is_pair_mutex
 
+    if nx_graph.graph.get("explicit_edges"):
+        # With edges= the declared topology is what it is: nothing is inferred
+        # from the first producer, so nothing is missing for the others.
+        return {}
+
     producers: dict[str, list[str]] = {}
     for node in nodes.values():
         for out in node.outputs:
